@@ -342,6 +342,9 @@ class G:
                 "(r.u.scheme == 'http')", "(r.u.hostname in ['example.com', 'foo.bar'])", "(r.u.filename == 'b.txt')",
                 "(r.u.scheme != r.s)", "(r.p.name == 'x')", "(r.p.parent == '/tmp')", "(r.p.suffix == '')",
                 "(r.ip.val.version == 4)", "(r.u.netloc == lower(r.u.netloc))",
+                # nested records are values too: they compare by their fields
+                "(r.rec == r.rec)", "(r.rec != r.rec)", "(r.rec in r.recs)", "(r.rec not in r.recs)", "([r.rec] == [r.rec])",
+                "any((e == r.rec) for e in r.recs)", "(r.recs == r.recs)", "(r.rec in [r.rec, None])", "(r.rec == None)",
             ])
         if k == "and":
             self.use("boolop:and")
